@@ -565,7 +565,9 @@ def correspondence(ctx):
                     for j, (cr, ci) in enumerate(zip(model["re"], model["im"])):
                         for c, (vr, vi) in enumerate(zip(cr, ci)):
                             z = out[c, j]
-                            ok = ok and _val_close(vr, F(float(np.real(z))), 0) and _val_close(vi, F(float(np.imag(z))), 0)
+                            # |z| is computed with hypot: |z|**2 is not exact for complex input
+                            tol = 1e-13 if tr in INEXACT and np.iscomplexobj(a) else 0
+                            ok = ok and _val_close(vr, _fr(np.real(z)), tol) and _val_close(vi, _fr(np.imag(z)), tol)
                 if not ok:
                     res.disagree("transform values", transformation=tr, input=a.tolist(), impl=out.tolist(),
                                  model=[model["complex"], model["re"]])
